@@ -58,8 +58,12 @@ let to_l1msg = function
   | List [Atom "MOther"; s] -> MOther (to_z s)
   | List [Atom "MTree"; s; t] -> MTree (to_z s, to_msg t)
   | x -> bad "l1msg" x
+let to_evidence = function
+  | List [Atom "Build_evidence"; k; h; t; p] -> { ev_cons = to_z k; ev_height = to_z h; ev_time = to_z t; ev_power = to_z p }
+  | x -> bad "evidence" x
 let to_block = function
-  | List [Atom "Build_block"; dt; abs; txs] -> { b_dt = to_z dt; b_absent = to_list to_z abs; b_txs = to_list (to_list to_l1msg) txs }
+  | List [Atom "Build_block"; dt; abs; evs; txs] ->
+    { b_dt = to_z dt; b_absent = to_list to_z abs; b_evidence = to_list to_evidence evs; b_txs = to_list (to_list to_l1msg) txs }
   | x -> bad "block" x
 let to_genesis = function
   | List [Atom "Build_genesis"; toks; a; b; c; d; e; f; g] ->
